@@ -144,6 +144,20 @@ class Inventory:
             return False
         live, rel = self.live_range(fn, b)
         user = self.inv.user_sites(fn, live)
+        # a callee instantiated with one of the caller's own type parameters runs that type's trait methods (IntoIterator,
+        # Iterator::next, Into, Drop): caller-supplied code just like a closure
+        tparams = [g for g in fn.j.get("generics", []) if re.fullmatch(r"[A-Z]\w*", g)]
+        root_fn = self.facts.fns.get(fn.j.get("root", "")) if fn.kind == "Closure" else None
+        if root_fn is not None:
+            tparams += [g for g in root_fn.j.get("generics", []) if re.fullmatch(r"[A-Z]\w*", g)]
+        if tparams:
+            rx = re.compile(r"(?<![\w:])(%s)(?![\w:])" % "|".join(map(re.escape, set(tparams))))
+            for x in sorted(live):
+                tt = fn.term(x)
+                if tt["k"] == "call" and not fn.blocks[x]["cleanup"]:
+                    hit = [ta for ta in tt.get("targs", []) if rx.search(ta) and not ta.startswith("{closure")]
+                    if hit and not re.search(r"core::mem::drop$|ops::drop::Drop", tt["callee"]):
+                        user = list(user) + [(x, "%s instantiated with the caller's type %s" % (tt["callee"].rsplit("::", 1)[-1], hit[0]))]
         bor = self.borrowers()
         nested = []
         for x in sorted(live):
